@@ -3,8 +3,8 @@
 From HV Require Import Base.Prelude Model.Store Proofs.Store Proofs.StoreOps Proofs.StoreInv Proofs.StoreProps.
 Local Open Scope N_scope.
 
-Theorem C05_extents_disjoint_inbounds : forall sb h,
-  let s := reach sb h in
+Theorem C05_extents_disjoint_inbounds : forall bp ba sb h,
+  let s := reach bp ba sb h in
   ovf (st s) = false ->
   NoOverlap (exts (st s)) /\
   Forall (fun e => ext_end e <= next (al (st s))) (exts (st s)) /\
